@@ -74,6 +74,8 @@ def main():
     res["checks"] = checks
     res["detected_by_own_property_check"] = checks[pid]["exit"] == 1
     dst = f"/verif/seeded/{pid}-{int(k) + int(os.environ.get('SEED_OFFSET', '0'))}"
+    if os.environ.get('SEED_NAME'):
+        dst = f"/verif/seeded/{os.environ['SEED_NAME']}"
     os.makedirs(dst, exist_ok=True)
     shutil.copy(patch, f"{dst}/patch.diff")
     shutil.copy(f"{wt}/SEED/demo{k}.rs", f"{dst}/demo.rs")
